@@ -589,11 +589,56 @@ func c20(c *core.Ctx) {
 		var fns []*ssa.Function
 		fns = append(fns, p.LibFuncs("inprocgrpc")...)
 		c05DoneBeforeFinalWrites(c, fns)
+		// ... and every client-side frame write does select on it: in the client stream's send family no context
+		// argument of a blocking frame writer can be nil (a nil context arm never fires: the sender would wait for
+		// a receiver that has gone)
+		nW := 0
+		for _, nt := range streamTypes(p, "ClientStream", "SendMsg") {
+			if pkgSuffixOf(nt) != "inprocgrpc" {
+				continue
+			}
+			seen := map[*ssa.Function]bool{}
+			for _, root := range []string{"SendMsg", "CloseSend"} {
+				for _, fn := range methodFamily(p, nt, root) {
+					if seen[fn] {
+						continue
+					}
+					seen[fn] = true
+					for _, call := range core.CallsIn(fn, func(call *ssa.Call, ci core.CallInfo) bool {
+						return ci.Static != nil && ci.Static.Signature.Recv() == nil && strings.HasPrefix(ci.Pkg, core.ModulePath) && blocksOnChannel(ci.Static, 0)
+					}) {
+						nctx, nilArg := 0, false
+						paths := map[string]bool{}
+						for _, a := range call.Call.Args {
+							if core.TypeStr(a.Type()) != "context.Context" {
+								continue
+							}
+							nctx++
+							paths[accessPath(a)] = true
+							for _, o := range core.Origins(a) {
+								if core.IsNilConst(o) {
+									nilArg = true
+								}
+							}
+						}
+						if nctx < 2 {
+							continue
+						}
+						nW++
+						c.Check(len(paths) == nctx, core.FuncName(fn)+":frame-write:two-different-contexts", call.Pos(), "the contexts given to the frame write are different ones (the call's and the server-done one)", "the frame write is given the same context twice: no arm watches the server finishing")
+						c.Check(!nilArg, core.FuncName(fn)+":frame-write:selects-on-peer-done", call.Pos(), "both contexts of the blocking frame write (the call's and the server-done one) are set on every path", "a client-side frame write can be made with a nil context: without the server-done arm a blocked sender is not released when the handler has finished (it waits until the call's own context ends)")
+					}
+				}
+			}
+		}
+		if nW == 0 {
+			c.Fail("inprocgrpc:client-frame-writes", token.NoPos, "ANCHOR-MISSING: no blocking frame write with two contexts in the in-process client stream's send family")
+		}
 		c.EndRule()
 	}
 
 	// ---------------------------------------------------------------- R6
-	if c.Rule("R6", "the receiver does not read ahead of the application: in the receive path of the in-process client stream a frame taken from the channel is parked in the peek slot only if it cannot be a data frame (error frames are re-parked so that later calls see them); every frame receive there is blocking", 1) {
+	if c.Rule("R6", "the receiver does not read ahead of the application: in the receive path of the in-process client stream a frame taken from the channel is parked in the peek slot only if it cannot be a data frame (error frames are re-parked so that later calls see them); every frame receive there is blocking; the header accessor leaves its receiving state whenever it sets a frame aside", 2) {
 		kinds := frameKinds(p)
 		n := 0
 		for _, nt := range streamTypes(p, "ClientStream", "RecvMsg") {
@@ -633,6 +678,84 @@ func c20(c *core.Ctx) {
 					}
 				})
 			}
+		}
+		// the header accessor takes at most ONE frame ahead of the application, however often it is called: when it
+		// sets a frame aside it leaves the state in which it receives, so that a repeated call does not take (and
+		// park over) another one
+		nH := 0
+		for _, nt := range streamTypes(p, "ClientStream", "RecvMsg") {
+			if pkgSuffixOf(nt) != "inprocgrpc" {
+				continue
+			}
+			tn := nt.Obj().Name()
+			for _, fn := range methodFamily(p, nt, "Header") {
+				// the state constant under which this function receives
+				var recv ssa.Instruction
+				stateFld := ""
+				var stateK int64
+				core.Instrs(fn, func(in ssa.Instruction) {
+					call, ok := in.(*ssa.Call)
+					if !ok || recv != nil {
+						return
+					}
+					ci := core.InfoOf(&call.Call)
+					if ci.Static == nil || !receivesFromParam(ci.Static) {
+						return
+					}
+					core.GuardedBy(call, func(f core.Fact) bool {
+						if f.Op != token.EQL {
+							return false
+						}
+						base, fld, isF := core.FieldOf(f.X)
+						k, isC := core.ConstInt(f.Y)
+						if isF && isC && core.NamedOf(base.Type()) == tn {
+							recv, stateFld, stateK = call, fld, k
+							return true
+						}
+						return false
+					})
+				})
+				if recv == nil {
+					continue
+				}
+				leaves := func(in ssa.Instruction) bool {
+					st, ok := in.(*ssa.Store)
+					if !ok {
+						return false
+					}
+					base, fld, isF := core.FieldOf(st.Addr)
+					k, isC := core.ConstInt(st.Val)
+					return isF && fld == stateFld && core.NamedOf(base.Type()) == tn && isC && k != stateK
+				}
+				core.Instrs(fn, func(in ssa.Instruction) {
+					x, ok := in.(*ssa.Store)
+					if !ok || core.IsNilConst(x.Val) {
+						return
+					}
+					base, fld, isF := core.FieldOf(x.Addr)
+					if !isF || core.NamedOf(base.Type()) != tn {
+						return
+					}
+					if pt, ok := x.Val.Type().Underlying().(*types.Pointer); !ok || core.NamedOf(pt.Elem()) != "frame" {
+						return
+					}
+					nH++
+					okLeave := core.MustPass(core.After(recv), x, leaves)
+					if !okLeave {
+						okLeave = true
+						for _, r := range core.Returns(fn) {
+							if core.Reachable(core.After(x), r) && !core.MustPass(core.After(x), r, leaves) {
+								okLeave = false
+							}
+						}
+					}
+					c.Check(okLeave, core.FuncName(fn)+":park("+fld+"):leaves-the-receiving-state", x.Pos(), fmt.Sprintf("whenever a frame is set aside, %s leaves the state (%s == %d) in which the function receives: a repeated call takes no further frame", stateFld, stateFld, stateK),
+						fmt.Sprintf("a frame can be set aside in %s while %s stays %d, the state in which this function receives: every further call takes one more frame off the channel (overwriting the one set aside), so the sender gets k more messages ahead for k calls", fld, stateFld, stateK))
+				})
+			}
+		}
+		if nH == 0 {
+			c.Fail("inprocgrpc:header-peek", token.NoPos, "ANCHOR-MISSING: the in-process client stream's header accessor sets no received frame aside")
 		}
 		if n == 0 {
 			c.Fail("inprocgrpc:peek-slot", token.NoPos, "ANCHOR-MISSING: the in-process client stream's receive path parks no received frame (expected: the error frame)")
